@@ -445,8 +445,13 @@ def classify(name, c, what="matrix"):
     if name == "XRayTransform3D":
         import linops_ref
 
-        if linops_ref.xray3d_integer_edge(c):
-            return "xray3d-integer-edge"
+        if linops_ref.xray3d_left_edge_partial(c):
+            return "xray-left-edge-drop"
+    if name == "XRayTransform2D":
+        import linops_ref
+
+        if any(bool(np.any(linops_ref.xray2d_weights(c, a)[0] == -1)) for a in c["angles"]):
+            return "xray-left-edge-drop"
     if name == "ProjectedGradient" and c["cdiff"] and c["coord"] is not None:
         nax = len(c["shape"]) if c["axes"] is None else len(c["axes"])
         if nax == 1:
@@ -692,8 +697,15 @@ def xray_checks(ctx, lean, oracle, name, c, op, R, case):
         if ok_tie:
             D_np_v = linops_ref.r_XRayTransform2D(dict(c, angles=[ang]))
             if not _close(R[v * ny : (v + 1) * ny], D_np_v, 1e-9):
-                ctx.disagree("ref.XRayTransform2D.matrix", dict(case, view=v), _summ(R[v * ny : (v + 1) * ny]), _summ(D_np_v), oracle=oracle)
-                return False
+                # documented boxcar model; the pinned scatter drops BOTH bins of a pixel whose first bin is -1
+                kid = None
+                if bool(np.any(ri == -1)) and _close(R[v * ny : (v + 1) * ny], linops_ref.r_XRayTransform2D(dict(c, angles=[ang]), coded=True), 1e-9):
+                    kid = "xray-left-edge-drop"
+                ctx.count("xray-differs-from-documented")
+                ctx.disagree("ref.XRayTransform2D.matrix", dict(case, view=v), _summ(R[v * ny : (v + 1) * ny]), _summ(D_np_v), oracle=oracle, known_id=kid,
+                             note="view differs from the documented boxcar model (contribution w to bin I and 1 - w to bin I + 1, each when on the detector)")
+                if kid is None or not ctx.is_known(kid):
+                    return False
         # (d) documented angles: 0 sums rows, pi/2 sums columns (unit pixels, detector wide enough)
         if c["dx"] == 1.0 and c["x0"] is None and ny >= max(sh) + 1 and r["all_on"]:
             want = None  # (pixel edges coincide with bin edges only when ny - n has the parity of 0)
@@ -728,9 +740,11 @@ def xray3d_checks(ctx, lean, oracle, name, c, op, R, case, tol):
     int_edge = bool(np.any(dist < 1e-9))
     D_doc = linops_ref.r_XRayTransform3D(c)
     known = None
+    left_partial = linops_ref.xray3d_left_edge_partial(c)
     if not _close(R, D_doc, tol):
-        if int_edge and _close(R, linops_ref.r_XRayTransform3D(c, coded=True), tol):
-            known = "xray3d-integer-edge"
+        # recorded deviation of the pinned code: a negative first index drops the neighbouring pixel as well
+        if left_partial and _close(R, linops_ref.r_XRayTransform3D(c, couple_negative=True), tol):
+            known = "xray-left-edge-drop"
         ctx.count("xray3d-differs-from-documented")
         ctx.disagree("ref.XRayTransform3D.matrix", case, _summ(R), _summ(D_doc), oracle=oracle, known_id=known,
                      note="dense matrix of the real projector differs from the documented voxel-footprint model")
@@ -741,19 +755,18 @@ def xray3d_checks(ctx, lean, oracle, name, c, op, R, case, tol):
     if sh[0] <= 10 and exact_or_far:
         for v in range(le.shape[0]):
             r = lean.m.call("x3split", le=fs2b(le[v].ravel()), w=f2b(0.5))
-            coded = np.array(b2fs(r["coded"])).reshape(-1, 2)
-            doc = np.array(b2fs(r["doc"])).reshape(-1, 2)
+            coded = np.array(b2fs(r["coded"])).reshape(-1, 2)  # floor(le) + 1 - le capped by w: the code
+            doc = np.array(b2fs(r["doc"])).reshape(-1, 2)  # overlap of the footprint with its first bin (C04_xray3d_split)
+            if not _close(coded, doc, 1e-12):
+                raise common.Infra("model: x3ToNext and x3Overlap differ")
             ul_ind, ulw, urw, llw, lrw = XRayTransform3D._calc_weights(tuple(sh), jnp.asarray(op.matrices[v]), tuple(det))
             got = np.stack([np.asarray(a, dtype=np.float64).ravel() for a in (ulw, urw, llw, lrw)], 1)
-            want = lambda t: np.stack([t[:, 0] * t[:, 1], (0.5 - t[:, 0]) * t[:, 1], t[:, 0] * (0.5 - t[:, 1]), (0.5 - t[:, 0]) * (0.5 - t[:, 1])], 1) * 4  # noqa: E731
+            want = np.stack([doc[:, 0] * doc[:, 1], (0.5 - doc[:, 0]) * doc[:, 1], doc[:, 0] * (0.5 - doc[:, 1]), (0.5 - doc[:, 0]) * (0.5 - doc[:, 1])], 1) * 4
             ctx.count("xray3d-footprint-splits")
-            if not _close(got, want(doc), 1e-6):
-                on_edge = bool(np.any(dist[v] < 1e-9))
-                kid = "xray3d-integer-edge" if (on_edge and _close(got, want(coded), 1e-6)) else None
-                ctx.disagree("linops.XRayTransform3D.weights", dict(case, view=v), _summ(got), _summ(want(doc)), oracle=oracle, known_id=kid,
-                             note="weights of the four detector pixels differ from the documented footprint split (Lean x3ToNextDoc)")
-                if kid is None or not ctx.is_known(kid):
-                    return False
+            if not _close(got, want, 1e-6):
+                ctx.disagree("linops.XRayTransform3D.weights", dict(case, view=v), _summ(got), _summ(want), oracle=oracle,
+                             note="weights of the four detector pixels differ from the documented footprint split (Lean x3Overlap)")
+                return False
     # (c) mass conservation per view when every footprint [le, le + 1/2]^2 lies on the detector
     x = np.abs(common.dyadic(ctx.rng, tuple(sh), bits=3, scale=2.0)) + 0.125
     y = np.asarray(op(opgrid.unflat(x.ravel(), op.input_shape, np.float64)))
@@ -764,7 +777,7 @@ def xray3d_checks(ctx, lean, oracle, name, c, op, R, case, tol):
             continue
         ctx.count("xray3d-mass-hypothesis-holds")
         if not common.close(float(y[v].sum()), float(x.sum()), 1000 * x.size):
-            kid = "xray3d-integer-edge" if bool(np.any(dist[v] < 1e-9)) else None
+            kid = None
             ctx.disagree("linops.XRayTransform3D.mass", dict(case, view=v), float(y[v].sum()), float(x.sum()), oracle=oracle, known_id=kid,
                          note="the detector covers every voxel footprint but the view does not conserve the total mass")
             if kid is None or not ctx.is_known(kid):
@@ -1006,7 +1019,7 @@ def _axes_oracle(case):
 
 
 KNOWN_WITNESSES = {
-    "xray3d-integer-edge": ("XRayTransform3D", {"shape": [2, 2, 2], "det_shape": [3, 3], "seq": "X", "angles": [[0.0]], "voxel_spacing": [0.5, 0.5, 0.5], "det_spacing": None}, "matrix"),
+    "xray-left-edge-drop": ("XRayTransform2D", {"shape": [1, 1], "angles": [0.0], "det_count": 2, "dx": 1.0, "x0": [-0.5, -0.5], "y0": 0.0}, "matrix"),
     "dft-inv-padded": ("DFT", {"shape": [4], "axes": None, "axes_shape": [8], "norm": None}, "inverse"),
     "projgrad-cdiff-single-axis": ("ProjectedGradient", {"shape": [4], "axes": [0], "coord": [{"array": {"shape": [1, 4], "re": [0.0, 0.25, 1.5, 0.625], "im": None}}], "cdiff": True, "dtype": "float64"}, "matrix"),
 }
